@@ -287,6 +287,11 @@ params_objects_fn = z3.Function("params_objects", z3.StringSort(), Seq(STR).sort
 def params_objects(eng, st, p, args, kw, node):
     has, val = _p(eng, st, p)
     k = _key(eng, args[0], st)
+    okk, ck = concrete(args[0])
+    if okk:
+        if not hasattr(eng, "objects_param_keys"):
+            eng.objects_param_keys = set()
+        eng.objects_param_keys.add(ck)      # for the reifier: this key is read as a list of names
     s = z3.If(z3.Select(has, k), z3.Select(val, k), z3.StringVal(""))
     # objects(): whitespace split, duplicates removed, original order -> abstract duplicate-free sequence
     r = V(Seq(STR), params_objects_fn(s))
